@@ -187,7 +187,21 @@ func (c *Ctx) Finish(outPath string) {
 	if len(c.Res.Nontrivial) > c.Res.NontrivialN {
 		c.Res.NontrivialN = len(c.Res.Nontrivial)
 	}
-	b, _ := json.MarshalIndent(c.Res, "", " ")
+	// NaN / Inf inside a payload cannot be encoded as JSON: such payloads are kept as text
+	for i := range c.Res.Violations {
+		c.Res.Violations[i].Replay = jsonSafe(c.Res.Violations[i].Replay)
+	}
+	for i := range c.Res.Samples {
+		c.Res.Samples[i] = jsonSafe(c.Res.Samples[i])
+	}
+	for k, v := range c.Res.Extra {
+		c.Res.Extra[k] = jsonSafe(v)
+	}
+	b, err := json.MarshalIndent(c.Res, "", " ")
+	if err != nil {
+		fmt.Fprintln(os.Stderr, "cannot encode result:", err)
+		os.Exit(3)
+	}
 	if err := os.WriteFile(outPath, b, 0o644); err != nil {
 		fmt.Fprintln(os.Stderr, "cannot write result:", err)
 		os.Exit(3)
@@ -333,4 +347,19 @@ func Crumb(class string, payload interface{}) {
 	}
 	crumbFile.Truncate(0)
 	crumbFile.WriteAt(b, 0)
+}
+
+// jsonSafe returns v if it can be encoded as JSON, otherwise its textual form (NaN, Inf, cycles …).
+func jsonSafe(v interface{}) interface{} {
+	if v == nil {
+		return nil
+	}
+	if _, err := json.Marshal(v); err == nil {
+		return v
+	}
+	t := fmt.Sprintf("%+v", v)
+	if len(t) > 20000 {
+		t = t[:20000] + "…"
+	}
+	return map[string]interface{}{"not_json_encodable": t}
 }
